@@ -2,6 +2,7 @@ import OpusModel.Layout
 import OpusModel.Matrix
 import OpusModel.Projection
 import OpusModel.MsEncode
+import OpusModel.MsDecEq
 import Driver.Util
 /- Suite `layout` (C10): channel layouts, surround / ambisonics / projection construction,
    multistream packet validation, decode routing, mapping-matrix multiplies. -/
@@ -76,6 +77,69 @@ def scriptEnc (pks : List Bytes) (s : Nat) (cm : Int) : Res Bytes :=
   match pks[s]? with
   | some pk => if (pk.length : Int) ≤ cm then .ok pk else .err .bufferTooSmall
   | none => .err .badArg
+
+/-! ### ops `msdec-…` (extension C10/MsDec): `opus_multistream_decode_native` / `opus_multistream_decoder_ctl` over a scripted
+    elementary machine — the state of a stream is the list of answers it still has to give. -/
+
+/-- Scripted elementary decoder: answers `(ret, packet_offset)` resp. `(ret, value)` from its script; `(0, 0)` once empty. -/
+def msdecMachine : Opus.MsDecEq.Machine (List (Int × Int)) Unit :=
+  { decode := fun st _ _ _ _ _ => { st := st.tail, ret := (st.headD (0, 0)).1, po := (st.headD (0, 0)).2, pcm := () }
+    ctl := fun st _ _ => (st.tail, (st.headD (0, 0)).1, (st.headD (0, 0)).2) }
+
+def parsePairs (s : String) : Option (List (Int × Int)) :=
+  if s = "-" then some []
+  else (s.splitOn ",").mapM fun t =>
+    match t.splitOn ":" with
+    | [a, b] => match a.toInt?, b.toInt? with
+      | some r, some o => some (r, o)
+      | _, _ => none
+    | _ => none
+
+def msdecScripts (n : Nat) (rets : List (Int × Int)) : List (List (Int × Int)) :=
+  (List.range n).map fun i => match rets[i]? with | some r => [r] | none => []
+
+def b01 (b : Bool) : String := if b then "1" else "0"
+
+def msdecRecStr (r : Opus.MsDecEq.Rec (List (Int × Int)) Unit) : String :=
+  s!"{r.s}:{r.off}:{r.len}:{r.args.fsz}:{r.args.fec}:{b01 r.args.sd}:{b01 r.args.sc}"
+
+def msdecSeenStr (x : Opus.MsDecEq.Seen (List (Int × Int)) Unit) : String :=
+  match x.inp with
+  | .ctl request arg => s!"{x.s}:{request}:{arg}"
+  | .decode _ => s!"{x.s}:decode"
+
+def handleMsDec : List String → String
+  | ["msdec-decode", channels, streams, coupled, hex, fs, len, data, frameSize, fec, sc, rets] =>
+    match parseNat channels, parseNat streams, parseNat coupled, parseHex hex, parseNat fs,
+          parseInt len, parseHex data, parseInt frameSize, parseInt fec, parseNat sc, parsePairs rets with
+    | some ch, some st, some co, some m, some fs, some len, some bs, some frameSize, some fec, some sc, some rets =>
+      if sc > 1 then "bad-op"
+      else
+        let l : ChannelLayout := { nbChannels := ch, nbStreams := st, nbCoupled := co, mapping := m }
+        let o := Opus.MsDecEq.msDecode msdecMachine l fs (msdecScripts st rets) bs len frameSize fec (sc = 1)
+        -- hypothesis `PoContract` of the theorems, checked on the recorded answers of the real decoder: a call on a present
+        -- packet that returned > 0 must have stored the parser's packet_offset
+        let poOk := o.recs.all fun r =>
+          match r.args.pkt with
+          | some b =>
+            if r.out.ret > 0 then
+              match Opus.Framing.parseImpl r.args.sd b with
+              | .ok p => decide (r.out.po = (p.packetOffset : Int))
+              | _ => false
+            else true
+          | none => true
+        if poOk then s!"ret={retStr o.ret} calls={listStr (o.recs.map msdecRecStr)} copies={listStr (o.copies.map callStr)}"
+        else s!"PO-CONTRACT-VIOLATED ret={retStr o.ret} calls={listStr (o.recs.map msdecRecStr)}"
+    | _, _, _, _, _, _, _, _, _, _, _ => "bad-op"
+  | ["msdec-ctl", streams, request, arg, nonNull, rets] =>
+    match parseNat streams, parseInt request, parseInt arg, parseNat nonNull, parsePairs rets with
+    | some st, some request, some arg, some nn, some rets =>
+      if nn > 1 ∨ st = 0 then "bad-op"
+      else
+        let o := Opus.MsDecEq.msCtl msdecMachine (msdecScripts st rets) request arg (nn = 1)
+        s!"ret={retStr o.ret} value={o.value} calls={listStr (o.seen.map msdecSeenStr)}"
+    | _, _, _, _, _ => "bad-op"
+  | _ => "bad-op"
 
 def handle : List String → String
   | ["msenc", n, fs, frameSize, vbr, bitrate, maxData, pks] =>
@@ -245,6 +309,7 @@ def handle : List String → String
         | none => "bad-op"
       | _, _ => "bad-op"
     | _, _, _ => "bad-op"
+  | op :: args => if op.startsWith "msdec-" then handleMsDec (op :: args) else "bad-op"
   | _ => "bad-op"
 
 end Driver.SuiteLayout
